@@ -122,6 +122,7 @@ mutual
     -- [finding C26-subshell-errexit-ignored]
     | .assignSub _ p => !p.isNil && !(k.e && (k.ign || k.unk)) && supProg (subCtx k) false p
     | .subsh p => !p.isNil && !(k.e && (k.ign || k.unk)) && supProg (subCtx k) false p
+    | .echoSub _ p _ => !p.isNil && !(k.e && (k.ign || k.unk)) && supProg (subCtx k) false p
     | .block p => !p.isNil && supProg k true p
     | .and x y => supStmt { k with ign := true, tl := headFalse k.tl } x && supStmt k y
     | .or x y => supStmt { k with ign := true, tl := headFalse k.tl } x && supStmt k y
